@@ -724,7 +724,14 @@ pub fn get_value(
                         _ => 10.0,
                     };
 
-                    Variant::from_float(val.log(base))
+                    // `log(1000)` is 3, not the 2.9999999999999996 that ln(1000) / ln(10) gives
+                    Variant::from_float(if base == 10.0 {
+                        val.log10()
+                    } else if base == 2.0 {
+                        val.log2()
+                    } else {
+                        val.log(base)
+                    })
                 }
                 _ => Variant::empty(VariantType::String),
             }
